@@ -308,7 +308,7 @@ def gen_reshape(rng):
         if rng.random() < 0.3:
             return {'op': 'unset_index', 'f': f, 'names': names}
         k = rng.randint(1, d)
-        return {'op': 'shift_out_rows', 'f': f, 'names': names, 'lv': sorted(rng.sample(range(d), k))}
+        return {'op': 'shift_out_rows', 'f': f, 'names': names, 'lv': (sorted if rng.random() < 0.4 else list)(rng.sample(range(d), k))}
     if q < 0.93:
         keep = rng.sample(range(4), rng.randint(1, 4))
         g = dict(f)
